@@ -817,6 +817,27 @@ func C03(c *Ctx) {
 			report("roundtrip", fmt.Sprintf("re-parsing the printed AST gives a different AST: %s; original %q reprint %q", d, jb.text, re), stripDump(got), stripDump(got2))
 		}
 	})
+	// size is no syntax: a long grammar of ordinary rules (about 200 KB) and one with moderately nested
+	// groups are accepted by the command as they are by the front-end (with and without -cache)
+	{
+		var sb strings.Builder
+		sb.WriteString("{\npackage p\n}\n\n")
+		for k := 0; k < 3300; k++ {
+			fmt.Fprintf(&sb, "Rule%d \"rule %d\" <- \"kw%d\"i [a-z0-9_]+ ( Rule%d / 'x' !. )? // %d\n", k, k, k, (k+1)%3300, k)
+		}
+		long := []byte(sb.String())
+		nested := []byte("{\npackage p\n}\n\nA <- " + strings.Repeat("( ", 11) + "'a' B" + strings.Repeat(" )", 11) + "\nB <- 'b'\n")
+		for _, t := range [][]byte{long, nested} {
+			for _, fl := range [][]string{{"-x"}, {"-x", "-cache"}} {
+				r := c.W.RunPigeon(c.W.Pigeon, t, 120*time.Second, nil, fl...)
+				c.Eval(1)
+				c.CovAdd("large_texts_given_to_the_command", 1)
+				if r.Exit != 0 && !r.Killed {
+					c.Report(&Violation{Class: "C03/large-text-rejected", Summary: fmt.Sprintf("pigeon %v exits %d on a %d-byte grammar in the documented syntax: %s", fl, r.Exit, len(t), firstLine(r.Stderr)), Grammar: string(truncBytes(t, 2000)), Flags: fl})
+				}
+			}
+		}
+	}
 	c.Cov("kinds_in_accepted_asts", kindsSeen)
 	c.Cov("unicode_class_names_available", len(ucl))
 	if len(jobs) > 0 {
